@@ -42,13 +42,13 @@ pub fn spec_for(id: &str) -> Option<CheckSpec> {
   Some(match id {
     "C01" => spec("C01", vec![Box::new(k("C01", Source::Random, Q, T).resets()), Box::new(k("C01", Source::Shipped, QS, TS).resets())], false),
     "C02" => spec("C02", vec![Box::new(k("C02", Source::Random, Q, T).resets()), Box::new(k("C02", Source::Shipped, QS, TS).resets())], true),
-    "C03" => spec("C03", vec![Box::new(k("C03", Source::Dist, Q, T).absorbing(Some(false))), Box::new(k("C03", Source::Random, Q / 2, T / 2).absorbing(Some(false))), Box::new(k("C03", Source::Shipped, QS, TS).absorbing(Some(false)))], true),
-    "C04" => spec("C04", vec![Box::new(k("C04", Source::Dist, Q, T).absorbing(Some(false))), Box::new(k("C04", Source::Random, Q / 2, T / 2).absorbing(Some(false))), Box::new(k("C04", Source::Shipped, QS, TS).absorbing(Some(false)))], true),
+    "C03" => spec("C03", vec![Box::new(k("C03", Source::Dist, Q, T).absorbing(Some(false)).resets()), Box::new(k("C03", Source::Random, Q / 2, T / 2).absorbing(Some(false)).resets()), Box::new(k("C03", Source::Shipped, QS, TS).absorbing(Some(false)).resets())], true),
+    "C04" => spec("C04", vec![Box::new(k("C04", Source::Dist, Q, T).absorbing(Some(false)).resets()), Box::new(k("C04", Source::Random, Q / 2, T / 2).absorbing(Some(false)).resets()), Box::new(k("C04", Source::Shipped, QS, TS).absorbing(Some(false)).resets())], true),
     "C05" => spec("C05", vec![Box::new(k("C05", Source::Random, Q, T)), Box::new(k("C05", Source::Shipped, QS, TS)), Box::new(k("C05", Source::Empty, 50_000, 2_000_000))], true),
     "C06" => spec("C06", vec![Box::new(k("C06", Source::Random, Q, T).resets()), Box::new(k("C06", Source::Shipped, QS, TS).resets())], false),
-    "C07" => spec("C07", vec![Box::new(k("C07", Source::Random, Q, T).norepeat().special()), Box::new(k("C07", Source::Shipped, QS, TS))], true),
+    "C07" => spec("C07", vec![Box::new(k("C07", Source::Random, Q, T).norepeat().special().resets()), Box::new(k("C07", Source::Shipped, QS, TS).resets())], true),
     "C08" => spec("C08", vec![Box::new(k("C08", Source::Dist, Q, T).absorbing(Some(true)))], true),
-    "C09" => spec("C09", vec![Box::new(k("C09", Source::Random, Q, T).special()), Box::new(k("C09", Source::Shipped, QS, TS))], true),
+    "C09" => spec("C09", vec![Box::new(k("C09", Source::Random, Q, T).special().resets()), Box::new(k("C09", Source::Shipped, QS, TS).resets())], true),
     "C19" => spec("C19", vec![Box::new(k("C19", Source::Random, Q, T).resets()), Box::new(k("C19", Source::Shipped, QS, TS).resets()), Box::new(b("C19", SourceB::Random, QB / 2, TB / 4))], false),
     "C10" => bspec("C10", vec![Box::new(b("C10", SourceB::Random, QB, TB)), Box::new(b("C10", SourceB::Shipped, QB / 4, TB / 4))]),
     "C11" => bspec("C11", vec![Box::new(b("C11", SourceB::Random, QB, TB).special()), Box::new(b("C11", SourceB::Shipped, QB / 4, TB / 4))]),
